@@ -43,6 +43,7 @@
 EXTENDS Geometry, TLC, Json
 
 CONSTANTS GRIDS,    \* set of <<xs, ys>>: strictly increasing sequences of lattice coordinates (grid lines)
+          SGRIDS,   \* the same, for "solve" mode (all occupancies are enumerated there, so these are smaller)
           KMAX,     \* numbers of boxes 1..KMAX
           DEN,      \* occupancy of a cell = p / DEN
           OCCVALS,  \* occupancy numerators enumerated in "solve" mode
@@ -161,15 +162,20 @@ KStog(n) == KStogOf(Boxes, n)
 SumOver(S, w) == FoldSet(LAMBDA c, acc : acc + w[c], 0, S)
 ObjSel(ss) == LET U == UNION SeqRange(ss) IN par.ratio * SumOver(U, wsel) - SumOver(U, wreal)
 Obj(s) == ObjSel(SelOf(s))
-Admit(n, b) == { s \in KStog(n) : Obj(s) >= b }
-Feasible(n, b) == \E s \in KStog(n) : Obj(s) >= b
-Best(n) == Max({ Obj(s) : s \in KStog(n) })          \* only when KStog(n) # {}
+\* the cost of every k-STOG, as a set of pairs <<shape, cost>> (computed once per evaluation, see LET below)
+Table(n) == { <<s, Obj(s)>> : s \in KStog(n) }
+AdmitT(T, b) == { e[1] : e \in { f \in T : f[2] >= b } }
+FeasibleT(T, b) == \E e \in T : e[2] >= b
+BestT(T) == Max({ e[2] : e \in T })                    \* only when T # {}
+Admit(n, b) == AdmitT(Table(n), b)
+Feasible(n, b) == FeasibleT(Table(n), b)
+Best(n) == BestT(Table(n))
 
 \* every result solve(k, bound) may return
 NoResult == [sat |-> 0, boxes |-> <<>>, ret |-> 0]
 SolveResults(n, b) ==
-  LET A == Admit(n, b) IN
-  IF A = {} THEN {NoResult} ELSE { [sat |-> 1, boxes |-> s, ret |-> Obj(s) + 1] : s \in A }
+  LET A == { f \in Table(n) : f[2] >= b } IN
+  IF A = {} THEN {NoResult} ELSE { [sat |-> 1, boxes |-> e[1], ret |-> e[2] + 1] : e \in A }
 
 \* Property clauses on an OBSERVED result r = [sat, boxes, ret] of solve(n, b) (the last two sentences
 \* of the statement).  A record of booleans, so that the trace specification can give total verdicts.
@@ -274,11 +280,12 @@ TinyGrids == { U(1, 1), U(2, 1), U(1, 3), U(2, 2) }
 QuickGrids == TinyGrids \cup { U(3, 2), U(3, 3), NonUniform33, Shifted33, Negative33, U(4, 2), NonUniform24 }
 ThoroughGrids == QuickGrids \cup { U(4, 3), U(3, 4), << <<2, 3, 5, 6, 8>>, <<0, 1, 2, 4>> >>, U(5, 2) }
 BigGrids == { U(4, 4) }
-QuickSolveGrids == { U(2, 2), U(3, 2), << <<1, 2, 4>>, <<-1, 0, 2, 3>> >> }
+ThoroughAllGrids == ThoroughGrids \cup BigGrids
+NonUniform23 == << <<1, 2, 4>>, <<-1, 0, 2, 3>> >>
+McSolveGrids == { U(1, 1), U(2, 1), U(2, 2) }                \* solve mode, explored exhaustively (results branch)
+QuickSolveGrids == { U(1, 1), U(2, 1), U(2, 2), U(3, 2), NonUniform23 }   \* solve mode, case generation only
 ThoroughSolveGrids == QuickSolveGrids \cup { U(3, 3) }
-OneGrid33 == { U(3, 3) }
-OneGrid21 == { U(2, 1) }
-OneGrid22 == { U(2, 2) }
+ThoroughMcSolveGrids == McSolveGrids \cup { U(3, 2) }
 DefectGrids == { Shifted33 }
 
 (***************************************************************************)
@@ -293,7 +300,7 @@ InputsFor(g, m) ==
 
 Init == /\ mode \in MODES /\ pc = "input"
         /\ par = [den |-> DEN, fnum |-> FNUM, fden |-> FDEN, ratio |-> RATIO]
-        /\ \E g \in GRIDS : cells \in InputsFor(g, mode)
+        /\ \E g \in (IF mode = "solve" THEN SGRIDS ELSE GRIDS) : cells \in InputsFor(g, mode)
         /\ k \in 1..KMAX
         /\ xs = Blank /\ ys = Blank /\ nbr = Blank /\ wsel = Blank /\ wreal = Blank
         /\ boxes = <<>> /\ sel = <<>> /\ bound = 0 /\ res = NoResult /\ last = <<>>
@@ -330,7 +337,7 @@ Close == /\ ~EMIT /\ mode \in {"gen", "enc"} /\ pc = "build" /\ pc' = "closed"
 \* ---- solve() and the improvement loop of main()
 HasShapes == KStog(k) # {}
 Start == /\ ~EMIT /\ mode = "solve" /\ pc = "start" /\ pc' = "call"
-         /\ bound' = IF HasShapes THEN Best(k) - 1 ELSE 0
+         /\ bound' = LET T == Table(k) IN IF T # {} THEN BestT(T) - 1 ELSE 0
          /\ UNCHANGED <<mode, par, cells, k, xs, ys, nbr, wsel, wreal, boxes, sel, res, last>>
 Call == /\ ~EMIT /\ pc = "call" /\ pc' = "ret"
         /\ res' \in SolveResults(k, bound)
@@ -347,7 +354,8 @@ EmitGrid == /\ EMIT /\ mode = "gen" /\ pc = "start" /\ pc' = "emitted" /\ UNCHAN
                              nshapes |-> Cardinality(KStog(k)), best |-> 0]))
 EmitSolve == /\ EMIT /\ mode = "solve" /\ pc = "start" /\ pc' = "emitted" /\ UNCHANGED <<mode, par, cells, k, xs, ys, nbr, wsel, wreal, boxes, sel, bound, res, last>>
              /\ PrintT(ToJson([kind |-> "solve", cells |-> cells, k |-> k, den |-> par.den, ratio |-> par.ratio,
-                              nshapes |-> Cardinality(KStog(k)), best |-> IF HasShapes THEN Best(k) ELSE 0]))
+                              nshapes |-> Cardinality(KStog(k)),
+                              best |-> LET T == Table(k) IN IF T # {} THEN BestT(T) ELSE 0]))
 
 Next == \/ DefineCoords
         \/ ChooseTrunk \/ AddBranch \/ EncBox \/ Close
@@ -372,8 +380,9 @@ EncSound == (mode = "enc" /\ pc = "closed") => Len(sel) = k /\ IsKStogSel(sel) /
 EncComplete == (mode = "gen" /\ pc = "closed") => EncAdmits(SelOf(boxes))
 \* solve(): the specified results satisfy the property clauses; the loop ends on an optimal shape
 SolveMeetsProperty == pc = "ret" => AllTrue(SolveClauses(k, bound, res))
-LoopOptimal == (pc = "end" /\ HasShapes) => /\ last # <<>> /\ Obj(last) = Best(k)
-                                            /\ bound = Best(k) + 1 /\ ~Feasible(k, bound)
+LoopOptimal == (pc = "end" /\ HasShapes) => LET T == Table(k) IN
+                                              /\ last # <<>> /\ Obj(last) = BestT(T)
+                                              /\ bound = BestT(T) + 1 /\ ~FeasibleT(T, bound)
 LoopNoShapes == (pc = "end" /\ ~HasShapes) => last = <<>>
 \* the bound only grows (termination of main's loop)
 BoundGrows == [][pc = "ret" => bound' >= bound]_vars
